@@ -139,7 +139,7 @@ func genExcludeSites(dir string) error {
 										role = "flag-target"
 									case fn == "len":
 										role = "len"
-									case fn == "strings.Join":
+									case fn == "strings.Join" || fn == "joinCSV":
 										role = "join"
 									}
 								}
